@@ -428,6 +428,10 @@ func runC04(c *Ctx) *Replay {
 			cfg.MaxNodes = 120
 		}
 		c.Count("deep_values", 1)
+	} else if c.R.Chance(1, 6) {
+		// now and then ONE string of the value runs to megabytes: what an older reader has
+		// to step over in one go, or in all over the life of its reader
+		cfg.Huge = 12
 	}
 	g := val.NewGen(sb.Schema, c.R.Fork("value"), cfg)
 	d := cands[c.R.Intn(len(cands))]
@@ -490,6 +494,7 @@ func runC04(c *Ctx) *Replay {
 
 func init() {
 	props["C09"] = runC09
+	execs["mustagree"] = execMustAgree
 	execs["optbytes"] = execOptBytes
 }
 
@@ -527,6 +532,26 @@ func runC09(c *Ctx) *Replay {
 	c.Sample(map[string]interface{}{"program": p.ID, "sender_mask": sb.Mask, "receiver_mask": rb.Mask, "type": d.Name, "shape": shape})
 	t := schema.Type{Named: d.Name}
 	data, spans := refcodec.EncodeSpans(sb.Schema, t, val.Normalise(sb.Schema, t, v))
+	// both decoders on a receiver that was used before (two valid encodings in a row)
+	if c.R.Chance(1, 2) {
+		for _, bl := range []*Build{sb, rb} {
+			ms := Scenario{Kind: "mustagree", Prog: p.ID, Mask: bl.Mask, PeerMask: -1, Type: d.Name, Values: []val.Value{v, g.Record(d.Name)}}
+			if c.R.Bool() {
+				ms.Values[0], ms.Values[1] = ms.Values[1], ms.Values[0]
+			}
+			viol := execMustAgree(c.N, &ms)
+			if ms.Extra["skipped"] != "" {
+				continue
+			}
+			c.Count("evaluations", 1)
+			c.Count("must_agree_reused", 1)
+			if viol != nil {
+				if rp := c.shrinkAndReport(&ms, viol); rp != nil {
+					return rp
+				}
+			}
+		}
+	}
 	// "any valid input" is not only what this generator writes: a conformant third-party
 	// peer (the reference encoder) sends map entries AND message fields in any order
 	for _, e := range append(append([]string{}, allEncoders...), "reference") {
@@ -583,6 +608,61 @@ func runC09(c *Ctx) *Replay {
 				}
 			}
 		}
+	}
+	return nil
+}
+
+// execMustAgree: "where MustUnmarshalBebop is generated it agrees with UnmarshalBebop on
+// every valid encoding" - also when the receiver is not fresh. Both decoders get a receiver
+// of their own, decode the encoding of Values[0] into it and then the encoding of
+// Values[1]; what the two receivers hold afterwards must be the same (whatever a decoder
+// does with fields the second encoding lacks, both must do it).
+func execMustAgree(n *Node, sc *Scenario) *Violation {
+	b := n.Build(sc.Prog, sc.Mask, false)
+	if b == nil || len(sc.Values) < 2 {
+		note(sc, "skipped", "build absent")
+		return nil
+	}
+	t, _, err := n.typeOf(b, sc.Type)
+	if err != nil || t.MustUnmarshal == nil {
+		note(sc, "skipped", "decoder not generated")
+		return nil
+	}
+	tt := schema.Type{Named: sc.Type}
+	kind := recordKind(b.Schema, sc.Type)
+	var encs [][]byte
+	for i := 0; i < 2; i++ {
+		encs = append(encs, refcodec.Encode(b.Schema, tt, val.Normalise(b.Schema, tt, sc.Values[i])))
+	}
+	checked, must := t.New(), t.New()
+	// every decode gets a buffer of its own that stays alive and untouched (builds that
+	// share string memory alias them)
+	var keep [][]byte
+	for i := 0; i < 2; i++ {
+		b1, b2 := append([]byte(nil), encs[i]...), append([]byte(nil), encs[i]...)
+		keep = append(keep, b1, b2)
+		var uerr error
+		cr := safeCall(0, 0, func() { uerr = checked.UnmarshalBebop(b1) })
+		if v := callViolation(&cr, sc, b.Schema, "unmarshal"); v != nil {
+			return v
+		}
+		if uerr != nil {
+			return mismatch("decode-error|unmarshal|"+kind, "UnmarshalBebop rejected a valid encoding: "+uerr.Error(), nil)
+		}
+		cr = safeCall(0, 0, func() { t.MustUnmarshal(must, b2) })
+		if v := callViolation(&cr, sc, b.Schema, "mustunmarshal"); v != nil {
+			return v
+		}
+	}
+	gc, _, err1 := n.readBack(b, sc.Type, checked)
+	gm, _, err2 := n.readBack(b, sc.Type, must)
+	_ = keep
+	if err1 != nil || err2 != nil {
+		return nil // a receiver with two union members set has no tree form: nothing to compare
+	}
+	if d := val.Diff(b.Schema, tt, val.Canon(b.Schema, tt, gc), val.Canon(b.Schema, tt, gm)); d != "" {
+		return mismatch("must-disagrees-reused|"+kind+"|"+pathShape(d), fmt.Sprintf("after decoding two valid encodings in a row into one receiver each, UnmarshalBebop and MustUnmarshalBebop hold different values: %s", d),
+			map[string]string{"record_kind": kind, "path": pathShape(d)})
 	}
 	return nil
 }
